@@ -1428,7 +1428,12 @@ pub(crate) fn display_message<'a>(
     formatter: &dyn MessageFormatter,
     err: &'a Error,
 ) -> Cow<'a, str> {
-    let msg = formatter.format_message(err);
+    display_text(formatter.format_message(err))
+}
+
+/// [`display_message`] for text that does not come from a formatter (validation issues, which
+/// reflect map keys of the input in their paths and offending values in their parameters).
+pub(crate) fn display_text(msg: Cow<'_, str>) -> Cow<'_, str> {
     if crate::de_snipped::is_terminal_snippet_clean(&msg) {
         return msg;
     }
@@ -1776,6 +1781,7 @@ fn fmt_validation_error_with_snippets_offset(
             })
             .unwrap_or(Cow::Borrowed(entry_raw.as_str()));
         let base_msg = l10n.validation_base_message(entry.as_ref(), &resolved_path);
+        let base_msg = display_text(Cow::Owned(base_msg));
 
         match (ref_loc, def_loc) {
             (Location::UNKNOWN, Location::UNKNOWN) => {
@@ -1873,6 +1879,7 @@ fn fmt_validator_error_with_snippets_offset(
         let resolved_path = format_path_with_resolved_leaf(&issue.path, &resolved_leaf);
         let entry = issue.display_entry_overridden(l10n, ExternalMessageSource::Validator);
         let base_msg = l10n.validation_base_message(&entry, &resolved_path);
+        let base_msg = display_text(Cow::Owned(base_msg));
 
         match (locs.reference_location, locs.defined_location) {
             (Location::UNKNOWN, Location::UNKNOWN) => {
